@@ -86,9 +86,12 @@ def declare_c19(E):
                requires={"msg_pos": "0 <= m.packet.tell() and m.packet.tell() + 4 <= len(m.packet.getvalue())"},
                ensures={"credit_is_exactly_the_peers_grant":
                         "self.out_window_size == ghost('sync_out_window_size')"
-                        " + unpack32(m.packet.getvalue()[old(m.packet.tell()):old(m.packet.tell()) + 4])"},
+                        " + unpack32(m.packet.getvalue()[old(m.packet.tell()):old(m.packet.tell()) + 4])",
+                        # several senders may be parked on the window and one grant may be enough for all of them: every one
+                        # is woken (notify_all), not just one - the others would sleep on although there is window (C20)
+                        "every_parked_sender_is_woken": "ghost('broadcasts') == old(ghost('broadcasts')) + 1"},
                returns="none", raises={})
-    E.declare_ghost(last_credit="int")
+    E.declare_ghost(last_credit="int", broadcasts="int")
     E.contract(C + "_set_remote_channel", params={"chanid": "u32", "window_size": "u32", "max_packet_size": "u32"},
                requires={"default_sane": "self.transport.default_max_packet_size >= 0"},
                ensures={"initial_grant": "self.out_window_size == window_size",
